@@ -255,12 +255,12 @@ def enqBlock (s : St) (k : Nat) (op : Op) : St :=
 
 def unwake (s : St) (w : Nat × Op) : St := { s with bm := { s.bm with woken := s.bm.woken.erase w } }
 
-/-- v1: the deferred part of the loop: close(r.buffer) (blocked senders panic), shutdown event -/
+/-- v1: the deferred part of the loop: close(r.buffer) (blocked senders panic), shutdown event. What is in
+the channel stays there (`OperationsInBuffer()` keeps reporting it) and is never received. -/
 def shutdownV1 (s : St) : St :=
   { s with loop := .exited, closed := true, shutdowns := s.shutdowns + 1,
            bm := { s.bm with waiting := [], returned := s.bm.returned ++ s.bm.waiting.map (fun w => (w.1, .shutdown)) },
-           pend := s.pend.filter (fun p => !(s.bm.waiting.any (·.1 == p.1))),
-           discarded := s.discarded ++ s.bm.buf.items }
+           pend := s.pend.filter (fun p => !(s.bm.waiting.any (·.1 == p.1))) }
 
 /-- v2: `r.shutdown()`: buffer.shutdown() (waking the waiters if `wos`), phase, shutdown event -/
 def shutdownV2 (c : BCfg) (s : St) : St :=
